@@ -1774,7 +1774,7 @@ class LeCreditBasedChannel(utils.EventEmitter):
             # compute it
             if len(self.in_sdu) >= 2:
                 self.in_sdu_length = struct.unpack_from('<H', self.in_sdu, 0)[0]
-        if self.in_sdu_length == 0:
+        if len(self.in_sdu) < 2:
             # We'll compute it later
             return
         if len(self.in_sdu) < 2 + self.in_sdu_length:
